@@ -662,6 +662,11 @@ def history_specs(run: Run, thorough: bool):
             [["load", a], ["save"], fit, ["save"], ["load_parameters", d]],
         ]
         hs += extra if thorough else [rng.choice(extra)]
+        # an update that is REFUSED half-way (a late parameter cannot be reshaped): whatever the model holds afterwards, it must
+        # still be self-consistent and survive save / load (on the shipped code a refused update leaves the model as it was)
+        hs.append(rng.choice([[["load", a], ["load_parameters_rejected", b], ["save"]],
+                              [fit, ["load_parameters_rejected", b]],
+                              [["load", a], ["load_parameters", b], ["load_parameters_rejected", d]]]))
         for steps in hs:
             out.append(dict(spec=c, steps=steps))
     return out
@@ -777,7 +782,7 @@ def oracle_history(run: Run, hist: dict, tmp: Path, idx: int, lp_cases: list | N
         with warnings.catch_warnings(), quiet():
             warnings.simplefilter("ignore")
             for st in steps:
-                if st[0] in ("load", "load_parameters"):
+                if st[0] in ("load", "load_parameters", "load_parameters_rejected"):
                     written(st[1])
             if any(st[0] == "fit" for st in steps[1:]):
                 df = synth.make_df(n_ind=8, n_feat=spec["n_feat"], seed=spec.get("data_seed", 1), joint=spec["kind"] == "joint",
@@ -837,6 +842,19 @@ def oracle_history(run: Run, hist: dict, tmp: Path, idx: int, lp_cases: list | N
                             bad("load_parameters-same-values-changes-the-model", "load_parameters with the values the model already "
                                 "holds changed what it reads / saves", expected="identical reads and file", observed=diff[:6])
                     last = ("params", st[1])
+                elif op == "load_parameters_rejected":
+                    _, d = written(st[1])
+                    ps = copy.deepcopy(d["parameters"])
+                    late = [q for q in m.parameters_names if q in ps][-1]
+                    flat = np.asarray(ps[late], dtype=float).reshape(-1).tolist()
+                    ps[late] = flat + [flat[-1] if flat else 0.5, 0.25]       # two values too many for the declared shape
+                    try:
+                        m.load_parameters(ps)
+                        run.count("history", "ill-shaped-update-accepted")
+                        last = None
+                    except Exception as e:  # noqa
+                        run.count("history", f"ill-shaped-update-refused:{type(e).__name__}")
+                        last = None if last is None or last[0] != "params" else ("unknown-after-refusal",)
                 else:
                     raise ValueError(f"unknown step {op}")
             run.count("history-step", op)
